@@ -9,6 +9,7 @@ def register(PROPS, HARNESS_PKGS):
         "name": "stream",
         "mc": [{"module": "Stream", "cfg": "Stream_mc.cfg"}],
         "quick": {"gen": [g(Kinds='{"flow"}', CTs='{"text/event-stream", "application/json"}', ChunkSizes="{1, 1024, 65536}"),
+                          g(Kinds='{"flow"}', Profiles='{"streaming", "standard"}', CTs='{"application/octet-stream"}', ChunkSizes="{1024}"),
                           g(Kinds='{"stall", "abort", "pause"}', Profiles='{"auto"}')]},
         "thorough": {"gen": [g(Kinds='{"flow"}', Profiles='{"auto", "streaming", "standard"}', CTs=allct, ChunkSizes="{1, 1024, 65536, 262144}"),
                              g(Kinds='{"stall", "abort", "pause"}', Profiles='{"auto", "streaming", "standard"}', CTs=allct)]},
